@@ -82,6 +82,19 @@ func runC16(r *core.Run) {
 		if !isRet || core.IsNil(core.RetVals(ret)[0]) {
 			continue
 		}
+		// the guard must be evaluated unconditionally: the only conditions that may hold on entry to its block are
+		// earlier rejection guards that did not fire
+		conditional := false
+		for _, g := range core.GuardsOf(b) {
+			tt := g.If.Block().Succs[0]
+			r2, isR := tt.Instrs[len(tt.Instrs)-1].(*ssa.Return)
+			if g.Pol || !isR || core.IsNil(core.RetVals(r2)[0]) {
+				conditional = true
+			}
+		}
+		if conditional {
+			continue
+		}
 		x, y := varName(bo.X), varName(bo.Y)
 		cx, isCX := core.ConstInt64(bo.X)
 		cy, isCY := core.ConstInt64(bo.Y)
